@@ -9,3 +9,9 @@ bounded("C19", "loaders", "bounded/loaders.py")
 bounded("C17", "graphs", "bounded/graphs.py")
 for pid in ("C01", "C02", "C03", "C05", "C06", "C08", "C09", "C12"):
     bounded(pid, "worlds", "bounded/worlds.py")
+for pid in ("C04", "C01"):
+    bounded(pid, "ledger", "bounded/ledger.py")
+for pid in ("C06", "C07", "C18"):
+    bounded(pid, "taskgraph", "bounded/taskgraph.py")
+for pid in ("C10", "C12", "C13", "C15"):
+    bounded(pid, "sched_small", "bounded/sched_small.py")
